@@ -18,7 +18,7 @@
 (* (C17); there is no build profile in the specification, so every build   *)
 (* must show this one behaviour.                                           *)
 (***************************************************************************)
-EXTENDS Integers, FiniteSets, Sequences, TLC, BoolFn, Text, Canon, Bdd, TwoLevel
+EXTENDS Integers, FiniteSets, Sequences, TLC, BoolFn, Text, Canon, Bdd, TwoLevel, Optim
 
 ToSet(s) == {s[x] : x \in 1..Len(s)}
 
